@@ -237,6 +237,20 @@ impl Adsr {
     }
 }
 
+/// Read-only observation points for the external verification harness (cargo feature `verif-hooks`)
+#[cfg(feature = "verif-hooks")]
+impl Adsr {
+    /// `adsr.verif_state()` is the phase the ADSR is currently in
+    pub fn verif_state(&self) -> State {
+        self.state
+    }
+
+    /// `adsr.verif_phase_bits()` is the raw value of the phase accumulator of the current phase
+    pub fn verif_phase_bits(&self) -> u32 {
+        self.phase_accumulator.verif_accumulator()
+    }
+}
+
 /// ADSR input types are represented here
 ///
 /// A, D, and S are represented as positive-only time periods, S is represented as a number in `[0.0, 1.0]`
